@@ -18,7 +18,10 @@ unary_sized = ["Vec<{}>", "Option<{}>", "Box<{}>", "std::sync::Arc<{}>", "std::r
          "std::ops::RangeInclusive<{}>", "std::ops::RangeTo<{}>", "std::ops::RangeToInclusive<{}>", "std::ops::Bound<{}>",
          "std::collections::BTreeSet<{}>", "std::collections::VecDeque<{}>", "std::collections::LinkedList<{}>", "std::collections::BinaryHeap<{}>",
          "({},)", "std::sync::atomic::AtomicPtr<{}>", "std::pin::Pin<Box<{}>>", "std::borrow::Cow<'static, {}>"]
-unary_unsized_ok = ["Box<{}>", "std::sync::Arc<{}>", "std::rc::Rc<{}>", "&'static {}", "*const {}", "std::ptr::NonNull<{}>", "std::marker::PhantomData<{}>", "std::cell::RefCell<{}>"]
+# every constructor whose Identifiable impl takes `T: ?Sized`, over every unsized leaf
+unary_unsized_ok = ["Box<{}>", "std::sync::Arc<{}>", "std::rc::Rc<{}>", "&'static {}", "*const {}", "std::ptr::NonNull<{}>", "std::marker::PhantomData<{}>", "std::cell::RefCell<{}>",
+                    "std::sync::Weak<{}>", "std::rc::Weak<{}>", "std::cell::Cell<{}>", "std::cell::UnsafeCell<{}>", "std::sync::Mutex<{}>", "std::sync::RwLock<{}>",
+                    "std::mem::ManuallyDrop<{}>", "&'static mut {}", "*mut {}"]
 binary = ["Result<{}, {}>", "({}, {})", "std::collections::BTreeMap<{}, {}>", "std::collections::HashMap<{}, {}, std::hash::RandomState>",
           "std::collections::HashSet<{}, std::hash::BuildHasherDefault<{}>>"]
 types = []
@@ -45,7 +48,11 @@ for l in extra_leaves:
         add(u.format(l))
 for u in unary_sized:
     if "Cow" in u:
-        for l in ["String", "u8", "Vec<u8>"]: add(u.format(l))
+        # a borrowed form next to its owned form (Cow<str> / Cow<String>, ...): the id must come from T, not from T::Owned
+        for l in ["String", "u8", "Vec<u8>", "Vec<u16>", "str", "[u8]", "[u16]", "std::path::Path", "std::path::PathBuf", "std::ffi::OsStr", "std::ffi::OsString",
+                  "std::ffi::CStr", "std::ffi::CString", "[String]", "Vec<String>"]:
+            add(u.format(l))
+            add("Vec<" + u.format(l) + ">")
         continue
     for l in leaves: add(u.format(l))
 for u in unary_unsized_ok:
